@@ -36,7 +36,7 @@ namespace c17
         bool checkMotion(const ob::State *a, const ob::State *b) const override
         {
             // (collapseCloseVertices spends O(n^2 log n) per step in its distance table and validates one motion per step)
-            if (recording && world::cpuSeconds() > cpuBudget)
+            if (recording && (++polls & 31) == 0 && world::cpuSeconds() > cpuBudget)
                 throw world::BudgetExhausted();
             bool ok = real_.checkMotion(a, b);
             if (ok && recording)
@@ -62,6 +62,7 @@ namespace c17
         mutable std::vector<std::pair<ob::State *, ob::State *>> log;
         bool recording = false;
         double cpuBudget = 1e9;
+        mutable unsigned polls = 0;  // (getrusage on every call costs more system time than the motion checks themselves)
 
     private:
         ob::DiscreteMotionValidator real_;
@@ -345,7 +346,7 @@ namespace c17
             // is cubic in the path length); a case that runs out is inconclusive, not a hang
             bool outOfBudget = false;
             c.w->validBudget = c.w->validCalls.load() + (o.thorough() ? 6000000 : 1500000);
-            c.w->cpuBudget = o.thorough() ? 15.0 : 4.0;
+            c.w->cpuBudget = o.thorough() ? 8.0 : 4.0;  // CPU seconds of the whole case (the hard limit is 30 / 10)
             world::ledger().cpuBudget = c.rec->cpuBudget = c.w->cpuBudget;
             world::ledger().armed = true;
             try
@@ -541,7 +542,7 @@ namespace c17
             if (res.vclass.empty() && k != "hybridize")
             {
                 if (validatedOnly || goalMayChange)
-                    judgeOp(res, c, k, before, *path, goalMayChange, mustNotLengthen, validatedOnly, obj, costAware, inputDenseOk, when, o.thorough() ? 3e7 : 5e6);
+                    judgeOp(res, c, k, before, *path, goalMayChange, mustNotLengthen, validatedOnly, obj, costAware, inputDenseOk, when, o.thorough() ? 1e7 : 5e6);
                 judged++;
                 if (res.inconclusive)
                     break;
